@@ -3365,14 +3365,34 @@ void Interpreter::call_constructor(const std::string &var_name,
         const auto &param = matching_ctor->parameters[i];
         const auto &arg = args[i];
 
-        Variable param_var;
-        param_var.type = arg.type.type_info;
-        param_var.value = arg.value;
-        param_var.double_value = arg.double_value;
-        param_var.str_value = arg.string_value;
-        param_var.is_assigned = true;
+        // A value parameter of a built-in scalar type is bound like the
+        // parameter of a function call: the declared type (not the type of
+        // the argument) is the type of the parameter, so an out-of-range
+        // argument is a range error and a negative argument to an unsigned
+        // parameter is clamped to 0.
+        bool is_scalar_value_param =
+            !param->is_pointer && !param->is_reference && !param->is_array &&
+            param->type_info >= TYPE_TINY && param->type_info <= TYPE_QUAD;
 
-        current_scope().variables[param->name] = param_var;
+        if (is_scalar_value_param) {
+            assign_function_parameter(param->name, arg, param->type_info,
+                                      param->type_name, param->is_unsigned);
+            if (param->is_const) {
+                if (Variable *bound = find_variable(param->name)) {
+                    bound->is_const = true;
+                }
+            }
+        } else {
+            Variable param_var;
+            param_var.type = arg.type.type_info;
+            param_var.value = arg.value;
+            param_var.double_value = arg.double_value;
+            param_var.str_value = arg.string_value;
+            param_var.is_assigned = true;
+            param_var.is_const = param->is_const;
+
+            current_scope().variables[param->name] = param_var;
+        }
 
         if (debug_mode) {
             {
